@@ -13,6 +13,7 @@ once (`…_partial` in the sense of DESIGN.md).
 -/
 import CoapLite.Lemmas.BlockTransfer
 import CoapLite.Lemmas.Upload
+import CoapLite.Lemmas.BlockFitsRange
 import CoapLite.Lemmas.BlockSession
 import CoapLite.Lemmas.Shape.Block
 import CoapLite.Lemmas.Shape.BlockValue
@@ -125,6 +126,14 @@ theorem too_large_413 (req : Request) (M : Nat) (st : BlockState) (resp1 : Block
       handleBlock1 req M st =
         ({ req with response := some (setCode (resp.addOption block1Num bs) .RequestEntityTooLarge) }, st, .ok true) :=
   handleBlock1_too_large req M st resp1 size resp hb hsz hn hr hok
+
+/-- … and under every budget that leaves any room the size hint can be produced (the negotiation never
+fails, D20): a Block1-less request is either small enough to be passed on or gets a hint of at most
+1024 bytes -/
+theorem too_large_hint_exists (ms tp M : Nat) (hB : 0 < blockBudget ms tp M) :
+    negotiate none ms tp M = .ok none ∨
+    ∃ b, negotiate none ms tp M = .ok (some b) ∧ b.num = 0 ∧ b.more = true ∧ b.szx ≤ 6 :=
+  negotiate_none_total ms tp M hB
 
 /-- when is a Block1-less request "too large": exactly when its payload is not
 smaller than the block budget -/
